@@ -42,6 +42,8 @@ def generate(seed, stratum, tier):
     kw = {'fx_rate': rng.choice([0.2, 0.4]), 'fx_ops': ('post_fifo', 'defer', 'defer_new', 'recall')}
     if combo[0] == 'queued':
       ops, weights = ('ev', 'read', 'defer', 'recall', 'rtc'), (6, 1, 1, 1, 2)
+  if combo[0] in ('queued', 'ao', 'factory') and rng.random() < 0.3:
+    ops, weights = tuple(ops) + ('clear_trace', 'clear_spy'), tuple(weights) + (0.7, 0.3)
   sc = cc.gen_chart_scenario(rng, combos=[combo], spec_kw=kw, ops=ops, weights=weights, nops=(4, 30), flags=False)
   if combo[0] == 'queued' and rng.random() < 0.2:
     sc['pre_start'] = [['defer', rng.choice(sc['spec']['signals'])]]
